@@ -9,3 +9,13 @@ t = alpha.build_reference('/repo/src')
 json.dump(t, open(alpha.REF_PATH, 'w'), indent=0, sort_keys=True)
 n = gate.write_reference('/repo/src')
 print(len(t), 'modules with locals;', n, 'module sources;', os.path.getsize(gate.REF_PATH), 'bytes')
+
+# obligation counts per rule on this tree (floors: report.finish demands nine tenths of them)
+import glob, subprocess
+subprocess.run([os.path.join(root, 'tools', 'run_all.sh')], capture_output=True)
+counts = {}
+for pth in sorted(glob.glob(os.path.join(root, 'evidence', 'C*.json'))):
+    e = json.load(open(pth))
+    counts[e['property_id']] = {r: v['obligations'] for r, v in e['coverage']['per_rule'].items()}
+json.dump(counts, open(os.path.join(root, 'tdstatic', 'floors_ref.json'), 'w'), indent=0, sort_keys=True)
+print('floors for', len(counts), 'properties')
